@@ -316,11 +316,17 @@ def rule_sameset(rep, ds):
         v = strip(kids(r)[0], casts=True)
         if v['k'] == 'CXXBoolLiteralExpr' and v['val'] == 0:
             # `return false` must be guarded by a root check  b2p(get(x)) == x  after the finds
+            # the representative to re-check is the one found FIRST: only it can have been linked under another root
+            # while the second find was running (if it is still a root, the two finds saw different roots at one instant)
+            finds = sorted([m for m in f.walk() if m['k'] == 'BinaryOperator' and m['op'] == '=' and is_call(strip(kids(m)[1], casts=True), 'findNode')],
+                           key=lambda m: m['id'])
+            first = strip(kids(finds[0])[0], casts=True).get('name') if finds else None
+
             def is_root_check(core):
                 if core['k'] != 'BinaryOperator' or core['op'] != '==':
                     return False
                 ks = [expr_key(x) for x in kids(core)]
-                return any(k.startswith('b2p(get(') for k in ks) and any(k in p for k in ks)
+                return any(k.startswith('b2p(get(%s' % first) for k in ks) and first in ks
             ok, _ = guarded_by(f, r, is_root_check)
             rep.ob('R5-sameset-rechecks-root', 'DisjointSet::sameSet/return-false', ok, f.loc(r),
                    '' if ok else '`false` is returned without re-checking that the first representative is still a root (a concurrent union '
@@ -380,6 +386,7 @@ MUTANTS = [
     ('sameset-no-recheck', '''            if (b2p(get(x)) == x) return false;
         }''', '''            return false;
         }''', 'R5'),
+    ('sameset-rechecks-second-root', '            if (b2p(get(x)) == x) return false;', '            if (b2p(get(y)) == y) return false;', 'R5'),
     ('bump-always', '''            if (xrank == yrank) {
                 updateRoot(y, yrank, y, yrank + 1);
             }''', '''            updateRoot(y, yrank, y, yrank + 1);''', 'R3'),
